@@ -1,6 +1,8 @@
 import Astisub.Driver.Basic
 import Astisub.Model.Ops
 import Astisub.Spec.OpsSpec
+import Astisub.Spec.Reach
+import Astisub.Model.Graph
 
 namespace Astisub
 namespace Driver
@@ -29,6 +31,122 @@ def handleOps (op : String) (args impl : List String) : Verdict :=
         | _ => false
     | _, _, _ => .bad "ops.forceduration: parse"
   | _, _ => .bad s!"unknown op {op}"
+
+end Driver
+end Astisub
+
+namespace Astisub
+namespace Driver
+open Proto
+
+def sameGraph (a b : Graph) : Bool := encGraph a == encGraph b
+
+def handleOps2 (op : String) (args impl : List String) : Verdict :=
+  match op, args with
+  | "ops.order", _spare :: rest =>
+    match decItems rest with
+    | some (xs, []) =>
+      compare (encItems (Ops.order xs)) (joinToks impl) fun _ =>
+        match decItems impl with
+        | some (ys, []) => Spec.orderOk xs ys
+        | _ => false
+    | _ => .bad "ops.order: parse"
+  | "ops.fragment", f :: _spare :: rest =>
+    match f.toInt?, decItems rest with
+    | some f, some (xs, []) =>
+      compare (encItems (Ops.fragment f xs)) (joinToks impl) fun _ =>
+        match decItems impl with
+        | some (ys, []) =>
+          if decide (0 < f) && decide (Spec.WF xs) && decide (Spec.StartOrdered xs) then Spec.fragmentOk f xs ys else true
+        | _ => false
+    | _, _ => .bad "ops.fragment: parse"
+  | "ops.unfragment", _spare :: rest =>
+    match decItems rest with
+    | some (xs, []) =>
+      compare (encItems (Ops.unfragment xs)) (joinToks impl) fun _ =>
+        match decItems impl with
+        | some (ys, []) => if decide (Spec.WF xs) then Spec.unfragmentOk xs ys else true
+        | _ => false
+    | _ => .bad "ops.unfragment: parse"
+  | "ops.fragunfrag", f :: _spare :: rest =>
+    match f.toInt?, decItems rest with
+    | some f, some (xs, []) =>
+      compare (encItems (Ops.unfragment (Ops.fragment f xs))) (joinToks impl) fun _ =>
+        match decItems impl with
+        | some (ys, []) =>
+          -- inverse law: start-ordered input without touching same-text cues is restored
+          -- (times and text of every cue; order up to equal starts)
+          let pre := decide (0 < f) && decide (Spec.WF xs) && decide (Spec.StartOrdered xs) &&
+            (xs.zipIdx.all fun (a, i) => xs.zipIdx.all fun (b, j) => i ≥ j || !decide (Spec.Touch a b))
+          if pre then
+            Spec.sortedByStart ys &&
+              (ys.map fun y => (y.startAt, y.endAt, y.content)).isPerm (xs.map fun x => (x.startAt, x.endAt, x.content))
+          else true
+        | _ => false
+    | _, _ => .bad "ops.fragunfrag: parse"
+  | "ops.merge", _kind :: rest =>
+    match decItems rest with
+    | some (xa, r1) =>
+      match decItems r1 with
+      | some (xb, r2) =>
+        match decGraph r2 with
+        | some (ga, r3) =>
+          match decGraph r3 with
+          | some (gb, []) =>
+            let ma := Ops.mergeItems xa xb
+            let g' : Graph := { items := [], regions := Graph.mergeDefs (·.id) ga.regions gb.regions,
+                                styles := Graph.mergeDefs (·.id) ga.styles gb.styles }
+            let m := s!"{encItems ma} {encItems xb} {encGraph g'} {encGraph gb}"
+            compare m (joinToks impl) fun _ =>
+              -- property predicate: A' = stable ordered union, B unchanged, maps = union with A winning
+              match decItems impl with
+              | some (ya, s1) =>
+                match decItems s1 with
+                | some (yb, s2) =>
+                  match decGraph s2 with
+                  | some (ha, s3) =>
+                    match decGraph s3 with
+                    | some (hb, []) =>
+                      let ids := ((ga.regions ++ gb.regions).map (·.2.id)).eraseDups
+                      let sids := ((ga.styles ++ gb.styles).map (·.2.id)).eraseDups
+                      Spec.orderOk (xa ++ xb) ya && yb == xb && sameGraph hb gb &&
+                        (ids.all fun q => ha.regions.lookup q == (ga.regions.lookup q <|> gb.regions.lookup q)) &&
+                        (sids.all fun q => ha.styles.lookup q == (ga.styles.lookup q <|> gb.styles.lookup q)) &&
+                        ha.regions.length == (ga.regions.map (·.1) ++ gb.regions.map (·.1)).eraseDups.length &&
+                        ha.styles.length == (ga.styles.map (·.1) ++ gb.styles.map (·.1)).eraseDups.length
+                    | _ => false
+                  | _ => false
+                | _ => false
+              | _ => false
+          | _ => .bad "ops.merge: parse gb"
+        | _ => .bad "ops.merge: parse ga"
+      | _ => .bad "ops.merge: parse xb"
+    | _ => .bad "ops.merge: parse xa"
+  | "ops.optimize", rest =>
+    match decGraph rest with
+    | some (g, []) =>
+      compare (encGraph (Graph.optimize g)) (joinToks impl) fun _ =>
+        match decGraph impl with
+        | some (h, []) => if Spec.consistentB g then sameGraph h (Spec.optimizeSpec g) else true
+        | _ => false
+    | _ => .bad "ops.optimize: parse"
+  | _, _ => handleOps op args impl
+
+end Driver
+end Astisub
+
+namespace Astisub
+namespace Driver
+open Proto
+
+def handleOps3 (op : String) (args impl : List String) : Verdict :=
+  match op with
+  | "ops.removestyling" =>
+    match decGraph args with
+    | some (g, []) =>
+      compare (encGraph (Graph.removeStyling g) ++ " clean=true same=true") (joinToks impl) fun _ => false
+    | _ => .bad "ops.removestyling: parse"
+  | _ => handleOps2 op args impl
 
 end Driver
 end Astisub
